@@ -988,6 +988,92 @@ def extract_pool_locking(repo, parents):
     return out
 
 
+def extract_pool_pass_follows(repo, parents):
+    """C07: every change of the request queue (a request added, removed, or given its connection back) is followed - as the very next
+    thing the pool does, before any suspension point - by an unconditional assignment pass."""
+    tree = _parse(repo, "httpcore/_async/connection_pool.py")
+    rows = []
+    CHANGES = ("._requests.append(", "._requests.remove(", ".clear_connection()")
+
+    def block_of(parent, stmt):
+        for field in ("body", "orelse", "finalbody"):
+            b = getattr(parent, field, None)
+            if isinstance(b, list) and any(x is stmt for x in b):
+                return b
+        if isinstance(parent, ast.Try):
+            for h in parent.handlers:
+                if any(x is stmt for x in h.body):
+                    return h.body
+        return None
+
+    for clsname, f in _func_defs(tree):
+        par = {}
+        for n in ast.walk(f):
+            for c in ast.iter_child_nodes(n):
+                par[id(c)] = n
+
+        def parent_stmt(n):
+            q = par.get(id(n))
+            while q is not None and not isinstance(q, ast.stmt) and not isinstance(q, ast.ExceptHandler):
+                q = par.get(id(q))
+            return q
+
+        def succ(stmt):
+            """the statement executed after `stmt` completes normally (None = leaves the function)"""
+            q = parent_stmt(stmt)
+            if q is None or q is f:
+                blk = f.body
+                q = f
+            else:
+                container = q
+                if isinstance(q, ast.ExceptHandler):
+                    blk = q.body
+                else:
+                    blk = block_of(q, stmt)
+                if blk is None:
+                    return None
+            i = [k for k, x in enumerate(blk) if x is stmt][0]
+            if i + 1 < len(blk):
+                return blk[i + 1]
+            if q is f:
+                return None
+            if isinstance(q, ast.ExceptHandler):
+                return succ(par[id(q)])          # after the handler: after the try statement
+            if isinstance(q, ast.While) and ast.unparse(q.test) == "True":
+                return q.body[0]                  # loop back
+            if isinstance(q, (ast.With, ast.AsyncWith, ast.Try)):
+                return succ(q)
+            return None
+
+        def first_effect(stmt, depth=0):
+            """descend through transparent wrappers to the first simple statement"""
+            while stmt is not None and depth < 20:
+                depth += 1
+                if isinstance(stmt, (ast.With, ast.AsyncWith)):
+                    stmt = stmt.body[0]
+                elif isinstance(stmt, ast.While) and ast.unparse(stmt.test) == "True":
+                    stmt = stmt.body[0]
+                elif isinstance(stmt, ast.Try):
+                    stmt = stmt.body[0]
+                else:
+                    return stmt
+            return stmt
+
+        for n in ast.walk(f):
+            if isinstance(n, (ast.Expr, ast.Assign)) and any(fr in ast.unparse(n) for fr in CHANGES):
+                nxt = first_effect(succ(n))
+                ok = nxt is not None and isinstance(nxt, (ast.Assign, ast.Expr)) and "_assign_requests_to_connections()" in ast.unparse(nxt)
+                qual = (clsname + "." if clsname else "") + f.name
+                rows.append((qual, ast.unparse(n).replace('"', "'")[:80], ok))
+    if len(rows) < 3:
+        raise ExtractError("connection_pool.py: the queue changes of the request protocol were not found")
+    return ["/-- every statement that changes the request queue (append / remove / clear_connection) and whether the next statement the pool",
+            "executes after it - through `with`, `try` and the `while True` back edge, before any suspension point - is an unconditional",
+            "`_assign_requests_to_connections()` -/",
+            "def poolPassFollows : List (String × String × Bool) := " +
+            lean_list([f'({lean_str(a)}, {lean_str(b)}, {"true" if c else "false"})' for a, b, c in rows])]
+
+
 def extract_establish_locking(repo, parents):
     """the three connection classes that establish lazily: the `already established?` test is made with the connect lock held
     (otherwise two threads - or two tasks of an HTTP/2-capable pool - that share the connection both establish it)"""
@@ -1061,7 +1147,7 @@ def extract_life(repo, parents):
         raise ExtractError(str(e))
 
 
-SECTIONS = [extract_establish_locking, extract_models, extract_pool, extract_timeouts, extract_schemes, extract_exception_maps, extract_h2, extract_unasync, extract_h1_reuse, extract_pool_locking, extract_life, extract_backend_write, extract_h2_reader]
+SECTIONS = [extract_establish_locking, extract_models, extract_pool, extract_timeouts, extract_schemes, extract_exception_maps, extract_h2, extract_unasync, extract_h1_reuse, extract_pool_locking, extract_life, extract_backend_write, extract_h2_reader, extract_pool_pass_follows]
 
 
 def generate(repo):
